@@ -178,6 +178,33 @@ def _subterms(t):
     return subterms(t)
 
 
+def _array_of_receivers(recv):
+    """receiver drawn from a local array literal of table references iterated in full
+    (`for s in [store(&mut self.a), store(&mut self.b)] { s.commit_at(h)? }`): the fields, one per element, else None"""
+    arrs = [x for x in _subterms(recv) if x[0] == "agg" and x[1] == "array" and len(x[2]) >= 2]
+    if len(arrs) != 1:
+        return None
+    a = arrs[0]
+    # between the literal and the receiver only element drawing: next / into_iter / iter / iter_mut / deref, `Some.0`
+    t = recv
+    while t is not a:
+        if t[0] in ("ref", "deref", "cast"):
+            t = t[1]
+        elif t[0] == "field" and (t[2] in (".0",) or "Some" in t[2]):
+            t = t[1]
+        elif t[0] == "call" and t[1].split("::")[-1] in ("next", "into_iter", "iter", "iter_mut", "deref", "deref_mut", "as_mut_slice", "as_slice") and t[2]:
+            t = t[2][0]
+        else:
+            return None
+    fields = []
+    for e in a[2]:
+        fl = self_fields(e)
+        if len(set(fl)) != 1:
+            return None
+        fields.append(fl[0])
+    return fields
+
+
 def calls_on_field(fn, method_names):
     """{field: [Call]} for calls whose callee method is in method_names and whose receiver derives from self.<field>.
     Two indirections are looked through: a local trait method that only forwards to the wanted method in all its impls
@@ -197,6 +224,13 @@ def calls_on_field(fn, method_names):
             if _forwards_to(F, c, method_names) is None:
                 continue
         recv = origin(fn, c.args[0])
+        arr = _array_of_receivers(recv)
+        if arr:
+            drv = _loop_driver(fn, c)
+            if drv is not None:
+                for i, f in enumerate(arr):
+                    out.setdefault(f, []).append(VCall(c, i, drv[0], drv[1]))
+            continue
         flds = self_fields(recv)
         if not flds:
             tf = _table_of_accessors(F, fn, recv)
